@@ -59,7 +59,7 @@ func init() {
 		ID: "C12",
 		Rule: "rapid histories of signed oracle price transactions through the full ante chain (1-5 validators with power splits around 2/3, 1-2 feeders with generated start blocks, intervals, end blocks and window sizes; agreeing, conflicting, duplicate, late and multi-source-round submissions in any order and block placement) plus stake changes that alter the validator set, against a round model; " +
 			"non-trivial = a history with at least one round closed by consensus and one closed by carry-forward, with at least 3 validators of unequal power; distinct = hash of the (kind, outcome) sequence",
-		Gen:      GenOpts{Weights: oracleWeights(), HostilePct: 10, ExtremePct: 0, Anchor: true, Tempos: []int{3, 8, 30}, CapBits: 40, ClampBits: 40},
+		Gen:      GenOpts{Weights: oracleWeights(), HostilePct: 10, ExtremePct: 0, Anchor: true, Tempos: []int{3, 8, 30}, CapBits: 40, ClampBits: 40, TwoSignerPct: 6},
 		MinSteps: 30,
 		MaxSteps: 110,
 		Config:   oracleConfig,
@@ -83,11 +83,20 @@ func init() {
 			return o.NonTrivialRounds(), nil
 		},
 	})
+	// (the listed finding K10 of C13 also shows in these histories, which share generator and
+	// oracle: a two-signer transaction whose second report fails keeps the first in memory)
+	worldProps["C12"].Known = func(m *Machine, v *Violation) string {
+		const k10 = "C13.I4.uncounted-changed-memory/failed-transaction-keeps-first-report"
+		if v.ID == "C13.I4.uncounted-changed-memory" && strings.Contains(v.Msg, "the transaction fails as a whole") && activeKnown["C12"][k10] {
+			return k10
+		}
+		return ""
+	}
 	base := *worldProps["C12"]
 	base.ID, base.Name = "C13", "C13"
 	base.Rule = "the same histories with 35% perturbed submissions (every field: feeder id, base block, nonce, sources, decimals, timestamps around +5 s, size around 1000 bytes, forged / foreign / missing signatures, two messages in one transaction, former validators and ordinary accounts) in DeliverTx, CheckTx and ReCheckTx, against an admission/counting model with byte-level store and memory diffs; " +
 		"non-trivial = a history containing a rejected, an admitted-but-uncounted and a counted submission; distinct = hash of the (kind, outcome) sequence"
-	base.Gen = GenOpts{Weights: oracleWeights(), HostilePct: 35, ExtremePct: 0, Anchor: true, Tempos: []int{3, 8, 30}, CapBits: 40, ClampBits: 40, FailingSecondMsg: true}
+	base.Gen = GenOpts{Weights: oracleWeights(), HostilePct: 35, ExtremePct: 0, Anchor: true, Tempos: []int{3, 8, 30}, CapBits: 40, ClampBits: 40, FailingSecondMsg: true, TwoSignerPct: 8}
 	const k10 = "C13.I4.uncounted-changed-memory/failed-transaction-keeps-first-report"
 	base.Adapt = func(g *GenOpts, active map[string]bool, st *PropStats) {
 		// listed finding: a price transaction whose second message fails keeps its first message's
@@ -99,7 +108,7 @@ func init() {
 		}
 	}
 	base.Known = func(m *Machine, v *Violation) string {
-		if v.ID == "C13.I4.uncounted-changed-memory" && strings.Contains(v.Msg, "second message carries nothing new") && activeKnown["C13"][k10] {
+		if v.ID == "C13.I4.uncounted-changed-memory" && strings.Contains(v.Msg, "the transaction fails as a whole") && activeKnown["C13"][k10] {
 			return k10
 		}
 		return ""
@@ -113,6 +122,7 @@ func init() {
 		m.Labels["submissions-rejected"] += o.rejected
 		m.Labels["submissions-admitted-only"] += o.admittedOnly
 		m.Labels["submissions-counted"] += o.counted
+		m.Labels["two-signer-transactions-with-both-reports-counted"] += o.TwoSigner
 		return o.NonTrivialAdmission(), nil
 	}
 	registerWorldProp(&base)
